@@ -5,7 +5,7 @@ import json
 from .. import drivers as D
 from ..common import C
 
-MODES = [[], ["--serial"], ["--linewise"], ["--linewise", "--serial"]]
+MODES = [[], ["--serial"], ["--linewise"], ["--linewise", "--serial"], ["pooled:1"], ["pooled:3"], ["--linewise", "pooled:1"]]
 GOOD = ["alpha beta\ngamma delta\n", "one two three\n", "x y\nz w", "héllo wörld\nzwei\n"]
 FAULT_CMDS = ["-g", "FAULT", "-m", "/(<CR>", "--end"]     # exits 1 only in units that contain FAULT
 
@@ -52,7 +52,28 @@ def run(chk, binary):
             files = [(nm, (b"bbb ccc\n" if i in faulty else b"word banana\n")) for i, (nm, _) in enumerate(files)]
         else:
             cmds = ["-m", "x"]
-        scs.append({"files": files, "opts": opts, "cmds": cmds, "stdin": None})
+        sc = {"files": files, "opts": opts, "cmds": cmds, "stdin": None}
+        pooled = [x for x in mode if x.startswith("pooled")]
+        if pooled:
+            # the pooled drivers are reachable only through a vic opts block
+            if kind == "template":
+                continue_ = True
+            vopts = ["edit_inplace", 'max_jobs="%s"' % pooled[0].split(":")[1]]
+            if "--linewise" in mode:
+                vopts.append("linewise")
+            if backup:
+                vopts.append("backup")
+            if kind == "template":
+                vopts.append('template="{{1}}+{{2}}"')
+                body = 'cut "e"\nglobal "banana" { cut "e" } '
+            elif kind == "abort":
+                body = 'move "x"\nglobal "FAULT" { move "/(<CR>" } '
+            else:
+                body = 'move "x"'
+            script = "opts { " + ", ".join(vopts) + " }\n" + body + "\n"
+            sc = {"files": files, "opts": [], "cmds": [script], "stdin": None,
+                  "model_opts": [x for x in opts if not x.startswith("pooled")]}
+        scs.append(sc)
         meta.append((faulty, kind, mode, backup))
     obs = D.scenarios_map(binary, scs)
     model = D.eval_model("c06", [D.model_case(sc, ob) for sc, ob in zip(scs, obs)])
